@@ -7,5 +7,5 @@ MCShapes == AllSessionShapes \o ResetExtraShapes
 MCScript == IF MCLong THEN <<"SetObj", "LoadRaw", "CopyFrom">> ELSE <<"SetObj", "LoadRaw", "CopyFrom">>
 MCProps == {"C05", "C07"}
 ASSUME PrintT("SHAPES " \o ToJson(MCShapes))
-INSTANCE Session WITH Shapes <- MCShapes, Script <- MCScript, Deep <- MCDeep, Props <- MCProps, ObjMode <- "prior", RawMode <- "plans"
+INSTANCE Session WITH Shapes <- MCShapes, Script <- MCScript, Deep <- MCDeep, Props <- MCProps, ObjMode <- "prior", RawMode <- "plans", EmptyMode <- "plain"
 ====
